@@ -90,6 +90,26 @@ Third round (other source files, table UNITS; one generated file per unit):
 Conventions (DESIGN 3): Python ints are Z; a shift count that depends on a parameter gets CPython's `ValueError: negative shift
 count` guard, a count built from object state and literals only is taken as non-negative (class invariant 0 <= prefixlen <=
 width); method parameters are ints unless declared otherwise in WHITELIST; every parameter of a module-level function is declared in FUNCS.
+SRCC (units SRCC_UNITS: netaddr/strategy/ipv4.py -> pysrc_ipv4_gen.v, ipv6.py -> pysrc_ipv6_gen.v, netaddr/fbsocket.py ->
+pysrc_fbsocket_gen.v, and a second unit over netaddr/strategy/__init__.py -> pysrc_strategy_bits_gen.v; all of it in the two blocks
+marked SRCC, which wrap the methods above and leave them untouched for every other unit).  Added readings, for these units only:
+* a module-level name bound exactly once, at top level, by `name = <int constant expression>` or `name = '<text>'` is a generated
+  constant src_<prefix><name> holding its VALUE (width / version / max_int of ipv4.py / ipv6.py: the constants of pysrc_gen.v);
+  `globals()['name']` is that constant even where a parameter shadows the name; `if x is None: x = e` for a parameter declared
+  optint / optstr = py_opt_default x e.  A call of a translated function may omit trailing parameters (the callee's constant
+  defaults are filled in) and hand an int / text to an optint / optstr parameter (Some ..).  A function listed by another unit over
+  the same file (or imported from such a file) is found in whichever unit lists it.
+* packed byte strings (`bytes`) are lists of byte values: struct.pack / unpack with a LITERAL format of unsigned big-endian (or
+  one-byte) fields = py_struct_pack / py_struct_unpack <field sizes> (Codec.struct_pack / struct_unpack; `*l` hands over a list);
+  `t[k]` with a literal k >= 0 on a list = py_seq_item (IndexError), `l[e]` = py_list_item (Python's negative index rule);
+  `return (a, b, c, d)` of ints = the list [a; b; c; d] (callers read the result as a word sequence).
+* text: '' and other literals, `a + b`, `s * n`, `a or b`, `a in b` (substring), `s[lo:hi]` / `l[lo:hi]` with any int bounds
+  (py_str_slice / py_slice: Python's clamping), `'<fmt>' % e` with conversions %d %x %.4x %s (fmt_d, fmt_x, py_fmt_x4; for a
+  sequence-valued e the length is tested: TypeError), `sep.join(l)`, `s.split('<literal>')`, `list(s)`, `int(s)` / `int(s, 16)`
+  (py_int_base_o: ValueError), `[e for x in xs]` = map / py_map_o (e may raise; left to right), `l.reverse()` / `l.extend(m)` /
+  `l.insert(0, x)` as rebinding of l, the truth value of an int / of text, `x = E('..')` for an exception class E followed later
+  by `raise x` (only the class is kept), a `for` target that the body assigns again (renamed: `for x__item in ..: x = x__item`),
+  BYTES_TO_BITS = the table regenerated into Gen/codec_gen.v (UNIT_TABLES), a `while` loop's fuel from FUEL as before.
 """
 import ast
 import os
@@ -233,6 +253,39 @@ OPERAND = (("OAddr", ("ver", "v")), ("ONet", ("ver", "v", "p")), ("ORng", ("ver"
 KINDCLASS = {"OAddr": "IPAddress", "ONet": "IPNetwork", "ORng": "IPRange"}
 MUTATORS = ("append", "pop")
 PURE_METHODS = ("subnet", "union")      # x.subnet(..) (IPNetwork: a generator over new objects), s.union(t) (a new set): x, s unchanged
+
+# ---- SRCC: netaddr/fbsocket.py, netaddr/strategy/ipv4.py, ipv6.py and int_to_bits / bytes_to_bits of netaddr/strategy/__init__.py ----
+# (all SRCC code lives in this block and in the block `SRCC: methods` at the end of the file; see the docstring paragraph SRCC)
+SRCC_REQ = " Base.PyStr Model.SrcPreludeStr Model.SrcPreludeText"
+SRCC_WORDFNS = {"words": "list int", "int_val": "int", "bits": "str", "bin_val": "str", "packed_int": "bytes"}
+SRCC_UNITS = [
+    # a second unit over netaddr/strategy/__init__.py (everything it does not list is the first one's): BYTES_TO_BITS is the table
+    # regenerated by harness/gen/codec.py (Gen/codec_gen.v gen_bytes_to_bits = SrcPreludeText.py_BYTES_TO_BITS)
+    ("netaddr/strategy/__init__.py", "pysrc_strategy_bits_gen.v", "strategy_", SRCC_REQ,
+     [(None, "int_to_bits", {"int_val": "int", "word_size": "int", "num_words": "int", "word_sep": "str"})]),
+    ("netaddr/strategy/ipv4.py", "pysrc_ipv4_gen.v", "ipv4_", SRCC_REQ + " Gen.pysrc_gen",
+     [(None, f, dict(SRCC_WORDFNS, word_sep="optstr")) for f in (
+         "valid_words", "int_to_words", "words_to_int", "valid_bits", "bits_to_int", "int_to_bits", "valid_bin", "int_to_bin",
+         "bin_to_int", "int_to_packed", "packed_to_int", "int_to_arpa")]),
+    ("netaddr/strategy/ipv6.py", "pysrc_ipv6_gen.v", "ipv6_", SRCC_REQ + " Gen.pysrc_gen",
+     [(None, f, dict(SRCC_WORDFNS, word_sep="optstr", num_words="optint", word_size="optint")) for f in (
+         "valid_words", "int_to_words", "words_to_int", "valid_bits", "bits_to_int", "int_to_bits", "valid_bin", "int_to_bin",
+         "bin_to_int", "int_to_packed", "packed_to_int")]),
+]
+UNITS += SRCC_UNITS
+FILES = FILES + tuple(u[1] for u in SRCC_UNITS)
+SRCC_OUT = tuple(u[1] for u in SRCC_UNITS)
+UNIT_TABLES["pysrc_strategy_bits_gen.v"] = {"BYTES_TO_BITS": "list str"}
+SRCC_TABLE_TERM = {"BYTES_TO_BITS": "py_BYTES_TO_BITS"}      # Coq name of a table of UNIT_TABLES where it differs from the Python name
+# module constants that harness/gen/pysrc.py constants() already regenerates into Gen/pysrc_gen.v
+SRCC_SHARED_CONSTS = {("ipv4_", "width"), ("ipv4_", "version"), ("ipv4_", "max_int"), ("ipv6_", "width"), ("ipv6_", "version"), ("ipv6_", "max_int")}
+# functions that return a tuple of ints where their callers (and the model) see a word sequence: the tuple is the list
+FUEL[(None, "int_to_bits", 2)] = ("word_size", 2)        # Codec.word_bytes_loop runs with Z.to_nat word_size + 1 and tests `word` first
+COQTY.update({"bytes": "(list Z)", "optstr": "(option string)"})
+RESERVED |= set("py_struct_pack py_struct_unpack py_seq_item py_list_item py_opt_default py_map_o py_clamp py_slice py_str_slice "
+                "py_str_or py_str_mul py_bytes_mul py_encode py_bytes_join py_str_in py_list_of_str py_split py_int_base_o py_fmt_x4 "
+                "py_insert0 py_except_all py_except_value join split fmt_d fmt_x chars length concat firstn skipn nth_error "
+                "py_BYTES_TO_BITS backend Platform Fallback".split())
 
 
 class Untranslatable(Exception):
@@ -2181,3 +2234,636 @@ def generate():
         text.encode("ascii")
         out[ofn] = text
     return out
+
+
+# ==== SRCC: methods ==================================================================================================================
+# Everything below serves the units of SRCC_UNITS only (`self.tr.out in SRCC_OUT`); for every other unit the wrapped methods
+# behave exactly as before (their generated text is byte-identical).  A hook returns None for a form it does not read, and the
+# original method (which fails closed) takes over.
+BY_MODULE_ALL = {}          # dotted module name -> every translator made for its file, in UNITS order
+
+
+def srcc_on(fn):
+    return fn.tr.out in SRCC_OUT
+
+
+def srcc_modname(fn):
+    return re.sub(r"(/__init__)?\.py$", "", fn).replace("/", ".")
+
+
+_translator_init0 = Translator.__init__
+
+
+def _srcc_translator_init(self, fn=IPFILE, out=None, prefix="", specs=None, parent=None):
+    _translator_init0(self, fn, out, prefix, specs, parent)
+    BY_MODULE_ALL.setdefault(srcc_modname(fn), []).append(self)
+
+
+Translator.__init__ = _srcc_translator_init
+_owner_of0 = Translator.owner_of
+
+
+def _srcc_owner_of(self, name):
+    """as before; in addition a module-level function of a file that several units share (or that is imported from such a file)
+    is found in whichever of those units lists it"""
+    r = _owner_of0(self, name)
+    if r is not None:
+        return r
+    imp = self.mod.imports.get(name)
+    module, _, real = imp.rpartition(".") if imp else (srcc_modname(self.fn), "", name)
+    if not imp and self.mod.toplevel(name) and not any(isinstance(n, ast.FunctionDef) and n.name == name for n in self.mod.tree.body):
+        return None
+    for t in BY_MODULE_ALL.get(module, ()):
+        if t is not self and any(k[0] is None and k[1] == real for k in t.specs) and not t.mod.imports.get(real):
+            return t, real
+    return None
+
+
+Translator.owner_of = _srcc_owner_of
+_generate0 = generate
+
+
+def generate():
+    BY_MODULE_ALL.clear()
+    return _generate0()
+
+
+_is_value0 = is_value
+
+
+def is_value(t):
+    return t in ("bytes", "optstr") or _is_value0(t)
+
+
+def srcc_struct_sizes(node):
+    """field sizes (bytes) of a literal struct format of unsigned big-endian fields: '>I' '>4I' '>8H' '>2H' '>H', or one-byte
+    fields in native order: 'B' '4B'"""
+    if not (isinstance(node, ast.Constant) and isinstance(node.value, str)):
+        bad(node, "struct format that is no string literal")
+    m = re.fullmatch(r"(>?)((?:\d*[BHI])+)", node.value)
+    if not m:
+        bad(node, "struct format %r" % node.value)
+    sizes = []
+    for cnt, code in re.findall(r"(\d*)([BHI])", m.group(2)):
+        if not m.group(1) and code != "B":
+            bad(node, "struct format %r: multi-byte field in native byte order" % node.value)
+        sizes += [{"B": 1, "H": 2, "I": 4}[code]] * (int(cnt) if cnt else 1)
+    if not sizes or len(sizes) > 32:
+        bad(node, "struct format %r" % node.value)
+    return sizes
+
+
+def srcc_nats(sizes):
+    return "[%s]" % "; ".join("%d%%nat" % n for n in sizes)
+
+
+def srcc_strlit(s, node=None):
+    if not all(32 <= ord(c) < 127 for c in s):
+        bad(node, "string literal with a non-printable character")
+    return "\"%s\"%%string" % s.replace('"', '""')
+
+
+def srcc_module_const(self, name, node):
+    """(type, term) of the module-level constant `name` of this unit's file: bound exactly once, at top level, by `name = <int
+    constant expression over literals and other such constants>` or `name = '<text>'`; emitted as a generated Definition
+    src_<prefix><name> with its VALUE (or, for width / version / max_int of ipv4.py / ipv6.py, the constant of Gen/pysrc_gen.v).
+    None if `name` is not such a constant."""
+    binds = [st for st in self.mod.tree.body for n in ([st] if isinstance(st, (ast.FunctionDef, ast.ClassDef)) else ast.walk(st))
+             if (isinstance(n, (ast.FunctionDef, ast.ClassDef)) and n.name == name)
+             or (isinstance(n, ast.Name) and n.id == name and isinstance(n.ctx, ast.Store))
+             or (isinstance(n, ast.alias) and (n.asname or n.name) == name)]
+    if len(binds) != 1 or not (isinstance(binds[0], ast.Assign) and len(binds[0].targets) == 1 and isinstance(binds[0].targets[0], ast.Name)):
+        return None
+    if any(isinstance(n, ast.Global) and name in n.names for n in ast.walk(self.mod.tree)):
+        return None
+    v, cn = binds[0].value, self.mangle(None, name)
+    if (self.prefix, name) in SRCC_SHARED_CONSTS:
+        return ("int", cn)
+    if isinstance(v, ast.Constant) and isinstance(v.value, str):
+        ty, term = "str", srcc_strlit(v.value, v)
+    else:
+        def ev(n, depth=0):
+            if const_int(n) is not None:
+                return const_int(n)
+            if isinstance(n, ast.Name) and depth < 8:
+                ds = [st for st in self.mod.tree.body for x in ([st] if isinstance(st, (ast.FunctionDef, ast.ClassDef)) else ast.walk(st))
+                      if (isinstance(x, (ast.FunctionDef, ast.ClassDef)) and x.name == n.id)
+                      or (isinstance(x, ast.Name) and x.id == n.id and isinstance(x.ctx, ast.Store))
+                      or (isinstance(x, ast.alias) and (x.asname or x.name) == n.id)]
+                if len(ds) == 1 and isinstance(ds[0], ast.Assign) and len(ds[0].targets) == 1 and isinstance(ds[0].targets[0], ast.Name) and not any(
+                        isinstance(g, ast.Global) and n.id in g.names for g in ast.walk(self.mod.tree)):
+                    return ev(ds[0].value, depth + 1)
+            if isinstance(n, ast.BinOp) and type(n.op) in (ast.Add, ast.Sub, ast.Mult, ast.FloorDiv, ast.Pow):
+                a, b = ev(n.left, depth), ev(n.right, depth)
+                if (isinstance(n.op, ast.FloorDiv) and b == 0) or (isinstance(n.op, ast.Pow) and not 0 <= b <= 4096):
+                    bad(n, "constant expression")
+                return {ast.Add: a + b, ast.Sub: a - b, ast.Mult: a * b, ast.FloorDiv: a // (b or 1), ast.Pow: a ** max(b, 0)}[type(n.op)]
+            bad(n, "constant expression %s" % type(n).__name__)
+        try:
+            val = ev(v)
+        except Untranslatable:
+            return None
+        ty, term = "int", "%d" % val if val >= 0 else "(%d)" % val
+    self.consts.setdefault(cn, "(* %s: %s, line %d: the value of this module constant *)\nDefinition %s : %s := %s.\n"
+                           % (self.fn, name, binds[0].lineno, cn, COQTY[ty], term))
+    return (ty, cn)
+
+
+Translator.srcc_module_const = srcc_module_const
+
+
+def srcc_normalize(f):
+    """a copy of function f in which a `for` target that the loop body assigns again is renamed: `for x in e: body` ->
+    `for x__item in e: x = x__item; body` (the same behaviour; the translator's loop variable must not be rebound)"""
+    import copy
+    f = copy.deepcopy(f)
+    for n in ast.walk(f):
+        if isinstance(n, ast.For) and isinstance(n.target, ast.Name) and n.target.id in assigned_names(n.body):
+            x = n.target.id
+            n.target = ast.copy_location(ast.Name(id=x + "__item", ctx=ast.Store()), n.target)
+            first = ast.Assign(targets=[ast.Name(id=x, ctx=ast.Store())], value=ast.Name(id=x + "__item", ctx=ast.Load()))
+            n.body.insert(0, ast.fix_missing_locations(ast.copy_location(first, n.body[0])))
+    return f
+
+
+_module_function0 = Module.function
+
+
+def _srcc_module_function(self, name):
+    f = _module_function0(self, name)
+    if self.fn in [u[0] for u in SRCC_UNITS]:
+        cache = self.__dict__.setdefault("srcc_norm", {})
+        if name not in cache:
+            cache[name] = srcc_normalize(f)
+        return cache[name]
+    return f
+
+
+Module.function = _srcc_module_function
+
+
+# ---- expressions
+def srcc_pure(self, node, env, want=None):
+    """(type, term) of an expression that must not raise (it sits where nothing can be hoisted)"""
+    self.nohoist += 1
+    try:
+        r = self.ex(node, env)
+    finally:
+        self.nohoist -= 1
+    if want is not None and r[0] != want:
+        bad(node, "%s expression expected, got %s" % (want, show(r[0])))
+    return r
+
+
+def srcc_is_strlist(ty):
+    return is_list(ty) and ty[1].find().t == "str"
+
+
+def srcc_format(self, node, env):
+    """'<literal format>' % e with the conversions %d %x %.4x %s (%r only inside exception messages, which are not translated):
+    e an int / text for one conversion, a tuple display of as many items as conversions, or a sequence-valued expression
+    (struct.unpack result, tuple(l)) whose length is tested: TypeError when it is not the number of conversions"""
+    fmt = node.left.value
+    parts = re.split(r"(%\.4x|%d|%x|%s)", fmt)
+    specs = parts[1::2]
+    if "%" in "".join(parts[0::2]) or not specs:
+        bad(node, "format string %r" % fmt)
+    if isinstance(node.right, ast.Tuple):
+        items = [self.ex(x, env) for x in node.right.elts]
+        seq = None
+    else:
+        ty, t = self.ex(node.right, env)
+        if ty in ("int", "str"):
+            items, seq = [(ty, t)], None
+        elif is_list(ty) and ty[1].find().t in ("int", "str"):
+            names = [self.fresh() for _ in specs]
+            items, seq = [(ty[1].find().t, x) for x in names], (t, names)
+        else:
+            bad(node, "format argument of kind %s" % show(ty))
+    if len(items) != len(specs):
+        bad(node, "format string %r with %d arguments" % (fmt, len(items)))
+    pieces = []
+    for lit, spec, (ty, t) in zip(parts[0::2], specs, items):
+        if lit:
+            pieces.append(srcc_strlit(lit, node))
+        if spec == "%s":
+            if ty != "str":
+                bad(node, "%%s of %s" % show(ty))
+            pieces.append(t)
+        else:
+            if ty != "int":
+                bad(node, "%s of %s" % (spec, show(ty)))
+            pieces.append("(%s %s)" % ({"%d": "fmt_d", "%x": "fmt_x", "%.4x": "py_fmt_x4"}[spec], t))
+    if parts[-1]:
+        pieces.append(srcc_strlit(parts[-1], node))
+    term = pieces[-1]
+    for p in reversed(pieces[:-1]):
+        term = "(String.append %s %s)" % (p, term)
+    if seq is None:
+        return ("str", term)
+    return ("out", "str", "(match %s with [%s] => Ok %s | _ => Raise TypeError end)" % (seq[0], "; ".join(seq[1]), term))
+
+
+def srcc_bound(self, b, env):
+    return "None" if b is None else "(Some %s)" % srcc_pure(self, b, env, "int")[1]
+
+
+def srcc_rhs(self, node, env):
+    if isinstance(node, ast.Name) and node.id not in env and node.id not in self.attrs and not node.id.startswith("self"):
+        if node.id in SRCC_TABLE_TERM and node.id in UNIT_TABLES.get(self.tr.out, {}) and self.mod.toplevel(node.id):
+            return (parse_type(UNIT_TABLES[self.tr.out][node.id]), SRCC_TABLE_TERM[node.id])
+        return self.tr.srcc_module_const(node.id, node)
+    if isinstance(node, ast.Constant) and isinstance(node.value, str) and node.value == "":
+        return ("str", "\"\"%string")
+    if isinstance(node, ast.BinOp) and isinstance(node.op, ast.Mod) and isinstance(node.left, ast.Constant) and isinstance(node.left.value, str):
+        return srcc_format(self, node, env)
+    if isinstance(node, ast.BinOp) and isinstance(node.op, (ast.Add, ast.Mult)):
+        snap, pre0 = self.snapshot(), list(self.pre)
+        (ta, a), (tb, b) = self.ex(node.left, env), self.ex(node.right, env)
+        if isinstance(node.op, ast.Add) and ta == tb and ta in ("str", "bytes"):
+            return (ta, "(String.append %s %s)" % (a, b) if ta == "str" else "(%s ++ %s)" % (a, b))
+        if isinstance(node.op, ast.Mult) and ta in ("str", "bytes") and tb == "int":
+            return (ta, "(%s %s %s)" % ("py_str_mul" if ta == "str" else "py_bytes_mul", a, b))
+        self.restore(snap)
+        self.pre = pre0
+        return None
+    if isinstance(node, ast.BoolOp) and isinstance(node.op, ast.Or) and len(node.values) == 2:
+        snap, pre0 = self.snapshot(), list(self.pre)
+        ta, a = self.ex(node.values[0], env)
+        if ta == "str":
+            return ("str", "(py_str_or %s %s)" % (a, srcc_pure(self, node.values[1], env, "str")[1]))
+        self.restore(snap)
+        self.pre = pre0
+        return None
+    if isinstance(node, ast.Compare) and len(node.ops) == 1 and isinstance(node.ops[0], (ast.In, ast.NotIn)):
+        snap, pre0 = self.snapshot(), list(self.pre)
+        try:
+            (ta, a), (tb, b) = self.ex(node.left, env), self.ex(node.comparators[0], env)
+        except Untranslatable:
+            ta = tb = None
+        if ta == "str" and tb == "str":         # text in text: substring test
+            return ("bool", ("(py_str_in %s %s)" if isinstance(node.ops[0], ast.In) else "(negb (py_str_in %s %s))") % (a, b))
+        self.restore(snap)
+        self.pre = pre0
+        return None
+    if isinstance(node, ast.Compare) and len(node.ops) == 1 and isinstance(node.ops[0], (ast.Is, ast.IsNot)) and isinstance(
+            node.comparators[0], ast.Constant) and node.comparators[0].value is None and isinstance(node.left, ast.Name):
+        ty, t = env.get(node.left.id, (None, None))
+        if ty in ("optint", "optstr"):
+            some = isinstance(node.ops[0], ast.IsNot)
+            return ("bool", "(match %s with Some _ => %s | None => %s end)" % (t, "true" if some else "false", "false" if some else "true"))
+        return None
+    if isinstance(node, ast.Subscript):
+        return srcc_subscript(self, node, env)
+    if isinstance(node, ast.Call):
+        return srcc_call(self, node, env)
+    if isinstance(node, ast.ListComp):
+        return srcc_listcomp(self, node, env)
+    return None
+
+
+def srcc_subscript(self, node, env):
+    sl = node.slice
+    if (isinstance(node.value, ast.Call) and dotted(node.value.func) == "globals" and not node.value.args and not node.value.keywords
+            and "globals" not in env and not self.mod.toplevel("globals") and isinstance(sl, ast.Constant) and isinstance(sl.value, str)):
+        r = self.tr.srcc_module_const(sl.value, node)       # globals()['name']: the module constant, also when a local shadows it
+        if r is None:
+            bad(node, "globals()[%r] is not a module constant the translator reads" % sl.value)
+        return r
+    snap, pre0 = self.snapshot(), list(self.pre)
+    try:
+        ty, t = self.ex(node.value, env)
+    except Untranslatable:
+        self.restore(snap)
+        self.pre = pre0
+        return None
+    if isinstance(sl, ast.Slice):
+        if sl.step is not None:
+            return None
+        if ty == "str" and sl.upper is None and const_int(sl.lower) is not None and const_int(sl.lower) >= 0:
+            self.restore(snap)
+            self.pre = pre0
+            return None                                     # s[k:] with a literal k >= 0: py_str_from, as before
+        if ty == "str":
+            return ("str", "(py_str_slice %s %s %s)" % (srcc_bound(self, sl.lower, env), srcc_bound(self, sl.upper, env), t))
+        if ty == "bytes" or is_list(ty):
+            return (ty, "(py_slice %s %s %s)" % (srcc_bound(self, sl.lower, env), srcc_bound(self, sl.upper, env), t))
+        self.restore(snap)
+        self.pre = pre0
+        return None
+    if is_list(ty) and is_value(ty[1].find().t or "?"):
+        k = const_int(sl)
+        if k is not None and k >= 0:
+            return ("out", ty[1].find().t, "(py_seq_item %d%%nat %s)" % (k, t))
+        return ("out", ty[1].find().t, "(py_list_item %s %s)" % (t, srcc_pure(self, sl, env, "int")[1]))
+    if ty == "str":
+        i = srcc_pure(self, sl, env, "int")[1]              # s[i]: the one-character string, IndexError outside
+        return ("out", "str", "(py_list_item (py_list_of_str %s) %s)" % (t, i))
+    self.restore(snap)
+    self.pre = pre0
+    return None
+
+
+def srcc_lib(self, f, names, module, env):
+    """is call target f the library function module.<one of names>: `_alias.name` for `import module as _alias`, or a name bound
+    by `from module import name [as alias]` (not shadowed by a local)?  -> the function's name, else None"""
+    if isinstance(f, ast.Attribute) and isinstance(f.value, ast.Name) and f.attr in names and f.value.id not in env:
+        imps = [a for n in self.mod.tree.body if isinstance(n, ast.Import) for a in n.names if (a.asname or a.name) == f.value.id]
+        if len(imps) == 1 and imps[0].name == module and sum(self.mod.toplevel(f.value.id) for _ in [0]) and not any(
+                isinstance(n, ast.Name) and n.id == f.value.id and isinstance(n.ctx, ast.Store) for n in ast.walk(self.mod.tree)):
+            return f.attr
+    if isinstance(f, ast.Name) and f.id not in env and self.mod.imports.get(f.id, "").rpartition(".")[0] == module:
+        real = self.mod.imports[f.id].rpartition(".")[2]
+        binds = [n for n in ast.walk(self.mod.tree) if (isinstance(n, ast.Name) and n.id == f.id and isinstance(n.ctx, ast.Store))
+                 or (isinstance(n, (ast.FunctionDef, ast.ClassDef)) and n.name == f.id)]
+        if real in names and not binds:
+            return real
+    return None
+
+
+def srcc_args(self, node, env, elem="int"):
+    """the positional arguments of a call as one list term: plain arguments, or one `*l` argument for a list l"""
+    if node.keywords:
+        bad(node, "keyword arguments")
+    if len(node.args) == 1 and isinstance(node.args[0], ast.Starred):
+        ty, t = self.ex(node.args[0].value, env)
+        if not (is_list(ty) and ty[1].find().t == elem):
+            bad(node, "*argument of kind %s" % show(ty))
+        return t
+    if any(isinstance(a, ast.Starred) for a in node.args):
+        bad(node, "mixed positional and * arguments")
+    items = [self.ex(a, env) for a in node.args]
+    if any(ty != elem for ty, _ in items):
+        bad(node, "argument of kind %s" % [show(ty) for ty, _ in items if ty != elem][0])
+    return "[%s]" % "; ".join(t for _, t in items)
+
+
+def srcc_callfn(self, node, name, env):
+    """call of a translated module-level function: omitted trailing parameters take the callee's (constant) defaults; an int /
+    text handed to a parameter declared optint / optstr is wrapped in Some, None is None"""
+    t, real = self.tr.owner_of(name)
+    d = t.get(None, real, node)
+    if node.keywords or any(isinstance(a, ast.Starred) for a in node.args) or len(node.args) > len(d.params):
+        bad(node, "unsupported argument list for %s" % d.cname)
+    dflts = [None] * (len(d.params) - len(d.f.args.defaults)) + list(d.f.args.defaults)
+    args = []
+    for i, (_, pty) in enumerate(d.params):
+        a = node.args[i] if i < len(node.args) else dflts[i]
+        if a is None:
+            bad(node, "missing argument %d of %s" % (i + 1, d.cname))
+        if isinstance(a, ast.Constant) and a.value is None:
+            if pty not in ("optint", "optstr", "optdialect", "optcls6"):
+                bad(node, "None for a parameter of %s declared %s" % (d.cname, show(pty)))
+            args.append((pty, "None"))
+            continue
+        ty, term = self.ex(a, env) if i < len(node.args) else self.ex(a, {k: v for k, v in env.items() if k.startswith("@")})
+        if (pty, ty) in (("optint", "int"), ("optstr", "str"), ("optcls6", "cls6")):
+            ty, term = pty, "(Some %s)" % term
+        args.append((ty, term))
+    if FILES.index(d.file) > FILES.index(self.file):
+        bad(node, "%s lives in %s, which comes after %s" % (d.cname, d.file, self.file))
+    self.deps.add((None, name))
+    self.depfns.append(d)
+    for (ty, _), (_, pty) in zip(args, d.params):
+        unify(node, ty, pty, "argument of %s" % d.cname)
+    if d.optional or d.mutating:
+        bad(node, "use of %s, which may return None or assigns state" % d.cname)
+    term = "(%s)" % " ".join([d.cname] + [x for _, x in args])
+    return ("out", d.kind, term) if d.outcome else (d.kind, term)
+
+
+def srcc_call(self, node, env):
+    f = node.func
+    lib = srcc_lib(self, f, ("pack", "unpack"), "struct", env)
+    if lib == "pack":
+        if not node.args:
+            bad(node, "struct.pack without a format")
+        sizes = srcc_struct_sizes(node.args[0])
+        rest = ast.copy_location(ast.Call(func=f, args=node.args[1:], keywords=node.keywords), node)
+        return ("out", "bytes", "(py_struct_pack %s %s)" % (srcc_nats(sizes), srcc_args(self, rest, env)))
+    if lib == "unpack":
+        if len(node.args) != 2 or node.keywords:
+            bad(node, "struct.unpack argument list")
+        sizes = srcc_struct_sizes(node.args[0])
+        ty, t = self.ex(node.args[1], env)
+        if ty != "bytes":
+            bad(node, "struct.unpack of %s" % show(ty))
+        return ("out", ("list", Cell("int")), "(py_struct_unpack %s %s)" % (srcc_nats(sizes), t))
+    if isinstance(f, ast.Name) and f.id not in env and self.tr.owner_of(f.id) is not None:
+        return srcc_callfn(self, node, f.id, env)
+    if self.builtin_call(node, "list", env, 1):
+        snap, pre0 = self.snapshot(), list(self.pre)
+        ty, t = self.ex(node.args[0], env)
+        if is_list(ty):
+            return (ty, t)                                  # list(<tuple or list>): a new list with the same items
+        if ty == "str":
+            return (("list", Cell("str")), "(py_list_of_str %s)" % t)
+        self.restore(snap)
+        self.pre = pre0
+        return None
+    if self.builtin_call(node, "len", env, 1):
+        snap, pre0 = self.snapshot(), list(self.pre)
+        ty, t = self.ex(node.args[0], env)
+        if ty == "bytes":
+            return ("int", "(Z.of_nat (List.length %s))" % t)
+        self.restore(snap)
+        self.pre = pre0
+        return None
+    if self.builtin_call(node, "int", env, 1) or (self.builtin_call(node, "int", env, 2) and const_int(node.args[1]) in (10, 16)):
+        snap, pre0 = self.snapshot(), list(self.pre)
+        ty, t = self.ex(node.args[0], env)
+        if ty == "str":
+            return ("out", "int", "(py_int_base_o %d %s)" % (const_int(node.args[1]) if len(node.args) == 2 else 10, t))
+        self.restore(snap)
+        self.pre = pre0
+        return None
+    if isinstance(f, ast.Attribute) and f.attr in ("join", "split", "encode") and not node.keywords and not (
+            isinstance(f.value, ast.Name) and f.value.id not in env and self.tr.srcc_module_const(f.value.id, node) is None):
+        ty, t = self.ex(f.value, env)
+        if ty != "str":
+            bad(node, "%s() on %s" % (f.attr, show(ty)))
+        if f.attr == "encode" and not node.args and isinstance(f.value, ast.Constant):
+            return ("bytes", "(py_encode %s)" % t)          # '<ASCII literal>'.encode(): its bytes
+        if f.attr == "join" and len(node.args) == 1:
+            aty, a = self.ex(node.args[0], env)
+            if not srcc_is_strlist(aty):
+                bad(node, "join() of %s" % show(aty))
+            return ("str", "(join %s %s)" % (t, a))
+        if f.attr == "split" and len(node.args) == 1:
+            sep = node.args[0]
+            if not (isinstance(sep, ast.Constant) and isinstance(sep.value, str) and sep.value):
+                bad(node, "split() by something other than a non-empty text literal")
+            if len(sep.value) == 1:
+                return (("list", Cell("str")), "(split %s %s)" % (srcc_charlit(sep.value, node), t))
+            return (("list", Cell("str")), "(py_split %s %s)" % (srcc_strlit(sep.value, node), t))
+        bad(node, "%s() with an unsupported argument list" % f.attr)
+    if isinstance(f, ast.Name) and f.id == "_bytes_join" and f.id not in env and self.mod.imports.get(f.id) == "netaddr.compat._bytes_join" \
+            and len(node.args) == 1 and not node.keywords:
+        ty, t = self.ex(node.args[0], env)                  # compat: _bytes_join = bytes().join
+        if not (is_list(ty) and ty[1].find().t == "bytes"):
+            bad(node, "_bytes_join of %s" % show(ty))
+        return ("bytes", "(py_bytes_join %s)" % t)
+    return None
+
+
+def srcc_charlit(c, node=None):
+    if not (32 <= ord(c) < 127) or c == '"':
+        bad(node, "character literal %r" % c)
+    return "\"%s\"%%char" % c
+
+
+def srcc_listcomp(self, node, env):
+    """[e for x in xs] (one generator, no condition, fresh x) -> map (fun x => e) xs, or py_map_o when e can raise (left to right,
+    the first exception wins); xs a list, or text (its characters as one-character strings)"""
+    g = node.generators
+    if not (len(g) == 1 and not g[0].ifs and not g[0].is_async and isinstance(g[0].target, ast.Name) and g[0].target.id not in env):
+        return None
+    if self.builtin_call(g[0].iter, "range", env, 1):
+        n = self.int_(g[0].iter.args[0], env)               # [e for _ in range(n)] with e not reading the variable: n copies
+        if g[0].target.id in loaded_names([node.elt]):
+            bad(node, "comprehension over range() that reads its variable")
+        ety, e = srcc_pure(self, node.elt, env)
+        if not is_value(ety):
+            bad(node, "comprehension element of kind %s" % show(ety))
+        return (("list", Cell(ety)), "(List.repeat %s (Z.to_nat %s))" % (e, n))
+    ty, t = self.listexpr(g[0].iter, env)
+    if ty == "str":
+        ty, t = ("list", Cell("str")), "(py_list_of_str %s)" % t
+    elem = ty[1].find().t if is_list(ty) else None
+    if elem is None or not is_value(elem):
+        bad(node, "comprehension over %s" % show(ty))
+    cn, lenv = self.bind_local(g[0].target, g[0].target.id, elem, env, g[0].iter)
+    saved, self.pre, nh = self.pre, [], self.nohoist
+    self.nohoist = 0
+    try:
+        r = self.rhs(node.elt, lenv)
+    finally:
+        self.nohoist = nh
+    inner, self.pre = self.pre, saved
+    ety = r[1] if r[0] == "out" else r[0]
+    if not is_value(ety):
+        bad(node, "comprehension element of kind %s" % show(ety))
+    if r[0] != "out" and not inner:
+        return (("list", Cell(ety)), "(map (fun %s => %s) %s)" % (cn, r[1], t))
+    body = self.render(self.wrap(inner, ("ret", ety, r[2] if r[0] == "out" else r[1], r[0] == "out")), "      ", True)
+    return ("out", ("list", Cell(ety)), "(py_map_o (fun %s =>\n      %s) %s)" % (cn, body, t))
+
+
+_rhs0 = Fn.rhs
+
+
+def _srcc_rhs(self, node, env):
+    if srcc_on(self):
+        r = srcc_rhs(self, node, env)
+        if r is not None:
+            self.size += 1
+            return r
+    return _rhs0(self, node, env)
+
+
+Fn.rhs = _srcc_rhs
+_bool0 = Fn.bool_
+
+
+def _srcc_bool(self, node, env):
+    """truth value of an int (`while word:`) and of text"""
+    if srcc_on(self) and not isinstance(node, (ast.Compare, ast.BoolOp)) and not (isinstance(node, ast.UnaryOp) and isinstance(node.op, ast.Not)):
+        snap, pre0 = self.snapshot(), list(self.pre)
+        try:
+            ty, t = self.ex(node, env)
+        except Untranslatable:
+            ty = None
+        if ty == "int":
+            return "(negb (%s =? 0))" % t
+        if ty == "str":
+            return "(negb (String.eqb %s \"\"%%string))" % t
+        self.restore(snap)
+        self.pre = pre0
+    return _bool0(self, node, env)
+
+
+Fn.bool_ = _srcc_bool
+
+
+# ---- statements
+def srcc_stmt(self, s, rest, env, k, after):
+    go = lambda e: self.block(rest, e, k, after)
+    if isinstance(s, ast.Raise) and isinstance(s.exc, ast.Name) and env.get(s.exc.id, ("",))[0] == "cls" and env[s.exc.id][1] in EXN and not s.cause:
+        if env["@mut"]:
+            bad(s, "raise after a state assignment")
+        return ("raise", env[s.exc.id][1])                  # raise <name bound to an exception object made before>
+    if (isinstance(s, ast.Assign) and len(s.targets) == 1 and isinstance(s.targets[0], ast.Name) and isinstance(s.value, ast.Call)
+            and isinstance(s.value.func, ast.Name) and s.value.func.id in EXN and s.value.func.id not in env
+            and (not self.mod.toplevel(s.value.func.id) or s.value.func.id in self.mod.imports)):
+        x = s.targets[0].id                                 # x = ValueError('..' % ..): the exception object; only its class is kept
+        if x in ("self", "_ipv4", "_ipv6") or any(isinstance(n, ast.Call) and not (isinstance(n.func, ast.Name) and n.func.id == "type")
+                                                  for a in s.value.args for n in ast.walk(a)) or s.value.keywords:
+            bad(s, "exception object built from something other than a message")
+        self.coqname(s.targets[0], x)
+        env = dict(env)
+        env[x] = ("cls", s.value.func.id)
+        return go(env)
+    if isinstance(s, ast.Expr) and isinstance(s.value, ast.Call) and isinstance(s.value.func, ast.Attribute) and isinstance(
+            s.value.func.value, ast.Name) and is_list(env.get(s.value.func.value.id, ("",))[0]) and not s.value.keywords:
+        v, l = s.value, s.value.func.value.id
+        lty, lt = env[l]
+        new = None
+        if v.func.attr == "reverse" and not v.args:
+            new = "(rev %s)" % lt
+        elif v.func.attr == "extend" and len(v.args) == 1:
+            ty, t = self.ex(v.args[0], env)
+            unify(s, ty, lty, "extended list")
+            new = "(%s ++ %s)" % (lt, t)
+        elif v.func.attr == "insert" and len(v.args) == 2 and const_int(v.args[0]) == 0:
+            ty, t = self.ex(v.args[1], env)
+            unify(s, ("list", Cell(ty)), lty, "inserted element")
+            new = "(py_insert0 %s %s)" % (t, lt)
+        if new is not None:
+            pre = self.take_pre()
+            cn, env = self.bind_local(s, l, lty, env)
+            return self.wrap(pre, ("let", cn, new, go(env)))
+    if isinstance(s, ast.If):
+        t = s.test
+        if (isinstance(t, ast.Compare) and len(t.ops) == 1 and isinstance(t.ops[0], ast.Is) and isinstance(t.left, ast.Name)
+                and isinstance(t.comparators[0], ast.Constant) and t.comparators[0].value is None
+                and env.get(t.left.id, ("",))[0] in ("optint", "optstr")):
+            # `if x is None: x = e` for a parameter declared optint / optstr: from here on x is an int / text
+            x, a = t.left.id, s.body[0] if len(s.body) == 1 else None
+            if not (s.orelse == [] and isinstance(a, ast.Assign) and len(a.targets) == 1 and isinstance(a.targets[0], ast.Name) and a.targets[0].id == x):
+                bad(s, "`if %s is None:` followed by something other than `%s = <default>`" % (x, x))
+            old, base = env[x][1], {"optint": "int", "optstr": "str"}[env[x][0]]
+            dflt = srcc_pure(self, a.value, env, base)[1]
+            cn, env = self.bind_local(a.targets[0], x, base, env, t)
+            return ("let", cn, "(py_opt_default %s %s)" % (old, dflt), go(env))
+    return None
+
+
+_block0 = Fn.block
+
+
+def _srcc_block(self, stmts, env, k, after):
+    if stmts and srcc_on(self):
+        r = srcc_stmt(self, stmts[0], list(stmts[1:]), env, k, after)
+        if r is not None:
+            return r
+    return _block0(self, stmts, env, k, after)
+
+
+Fn.block = _srcc_block
+_return0 = Fn.return_
+
+
+def _srcc_return(self, s, env):
+    """`return (a, b, c, d)` of ints in a unit whose callers read the result as a word sequence: the list [a; b; c; d]"""
+    v = s.value
+    if srcc_on(self) and isinstance(v, ast.Tuple) and v.elts and not (env["@break"] is not None and not env["@lret"]):
+        snap, pre0 = self.snapshot(), list(self.pre)
+        items = [self.ex(x, env) for x in v.elts]
+        if all(ty == "int" for ty, _ in items):
+            return self.wrap(self.take_pre(), self.leaf(env, ("list", Cell("int")), "[%s]" % "; ".join(t for _, t in items)))
+        self.restore(snap)
+        self.pre = pre0
+    return _return0(self, s, env)
+
+
+Fn.return_ = _srcc_return
